@@ -22,8 +22,11 @@ def load_prop(prop_id):
     return importlib.import_module('vmon.props.' + prop_id.lower())
 
 
-def child_env():
+def child_env(scratch=None):
     e = dict(os.environ)
+    if scratch:  # every temporary file of a shard (and of the tools it starts) lives under the run directory
+        os.makedirs(scratch, exist_ok=True)
+        e['TMPDIR'] = scratch
     e['PYTHONHASHSEED'] = '0'
     e['PYTHONDONTWRITEBYTECODE'] = '1'
     e['PYTHONWARNINGS'] = 'ignore'
@@ -59,7 +62,7 @@ def main(argv=None):
             out = os.path.join(tmp, 'shard%d.json' % k)
             cmd = [env.PYTHON, '-B', '-X', 'faulthandler', '-m', 'vmon.worker', prop_id, args.tier, str(seed),
                    str(k), str(nshards), out, str(timeout)]
-            p = subprocess.Popen(cmd, cwd=env.VERIF_DIR, env=child_env(),
+            p = subprocess.Popen(cmd, cwd=env.VERIF_DIR, env=child_env(os.path.join(tmp, 'scratch%d' % k)),
                                  stdout=subprocess.PIPE, stderr=subprocess.STDOUT)
             procs.append((k, p, out))
         dumps, problems = [], []
